@@ -137,11 +137,12 @@ class MultiTaskBCD(BaseSolver):
                             W_acc[ws_, :] = np.sum(
                                 last_K_w[:-1] * c[:, None], axis=0).reshape(
                                     (ws_size + self.fit_intercept, n_tasks))
-                            p_obj = datafit.value(Y, W, XW) + penalty.value(W)
+                            p_obj = datafit.value(Y, W, XW) + penalty.value(
+                                W[:n_features])
                             Xw_acc = (X[:, ws] @ W_acc[ws]
                                       + self.fit_intercept * W_acc[-1])
                             p_obj_acc = datafit.value(
-                                Y, W_acc, Xw_acc) + penalty.value(W_acc)
+                                Y, W_acc, Xw_acc) + penalty.value(W_acc[:n_features])
                             if p_obj_acc < p_obj:
                                 W[:] = W_acc
                                 XW[:] = Xw_acc
